@@ -489,6 +489,7 @@ pub fn record(seed: u64, tier: &str, out: &str) {
     let mut t = TraceWriter::create(out);
     let runs = if thorough { 120 } else { 12 };
     let mut stats = (0u64, 0u64, 0u64); // bytes, reads, runs with EINTR
+    let mut jobs: Vec<(Vec<u8>, Vec<Op>, u64)> = vec![];
     for run in 0..runs {
         let target = match run % 8 {
             0 => 40 + rng.usize(200),
@@ -515,6 +516,31 @@ pub fn record(seed: u64, tier: &str, out: &str) {
             ops = pre;
             // the first pre-line consumed the leading "\n": the Seq skips it as whitespace
         }
+        jobs.push((text, ops, run));
+    }
+    // wrap probes: line-oriented inputs a little longer than k internal buffers, dense in LF and CR, ending in a
+    // lone CR (whatever the buffer holds past the end of the data is a byte consumed exactly k buffers earlier)
+    let probes = if thorough { 36 } else { 6 };
+    for run in runs..runs + probes {
+        let p = run - runs;
+        let bs = Reader::VERIF_BUF_SIZE.max(4) as usize;
+        let len = bs * (1 + (p % 2) as usize) + 1 + rng.usize(if p % 3 == 0 { 3 } else { 300 });
+        // dense around the buffer boundaries and at both ends, long lines elsewhere (keeps the number of lines small)
+        let mut text: Vec<u8> = (0..len).map(|i| {
+            let dense = i < 400 || i + 400 > len || (i % bs) < 400 || (i % bs) + 8 > bs;
+            if dense { match rng.usize(10) { 0..=3 => b'\n', 4..=5 => b'\r', 6 => b' ', _ => b'x' } }
+            else if rng.usize(400) == 0 { b'\n' } else { b'x' }
+        }).collect();
+        text[len - 1] = b'\r';
+        if p % 2 == 0 { text[len - bs] = b'\n'; text[len - 2] = b'x'; }
+        let mut ops = vec![];
+        for _ in 0..rng.usize(4) { ops.push(Op::Line); }
+        ops.push(Op::Lines);
+        ops.push(Op::Eof);
+        ops.push(Op::Line);
+        jobs.push((text, ops, run));
+    }
+    for (text, ops, run) in jobs {
         let eintr = run % 3 == 1;
         let sched = schedule(&mut rng, text.len(), run % 7, eintr);
         if eintr {
@@ -556,5 +582,5 @@ pub fn record(seed: u64, tier: &str, out: &str) {
         stats.1 += reads.get();
     }
     let ev = t.finish();
-    println!("{}", json!({"events": ev, "runs": runs, "input_bytes": stats.0, "source_reads": stats.1, "runs_with_interrupted": stats.2, "buf_size": Reader::VERIF_BUF_SIZE}));
+    println!("{}", json!({"events": ev, "runs": runs + probes, "wrap_probes": probes, "input_bytes": stats.0, "source_reads": stats.1, "runs_with_interrupted": stats.2, "buf_size": Reader::VERIF_BUF_SIZE}));
 }
